@@ -197,7 +197,10 @@ func Steps() int                                  { return 0 }
 func Stdout() string                              { return "" }
 func Opaque() int                                 { return 0 }
 func Budget(n int64)                              {}
-func IsConcrete(v interface{}) bool               { return true }
+
+// CallDepth raises the engine's bound on nested calls for a harness that walks deep trees.
+func CallDepth(n int64)             {}
+func IsConcrete(v interface{}) bool { return true }
 
 // Branch-free helpers: under the engine these build terms without forking.
 func Ite(c bool, a, b int) int {
